@@ -298,7 +298,7 @@ static void ProcessFile(char const* pSrcName, int Index) {
     PPart       PartRun;
     Byte        Header, CPU, Gran, Segment;
     LongInt     Addr, z;
-    LargeWord   Value, RelocVal, NRelocVal;
+    LargeWord   Value, RelocVal, NRelocVal, PatchOffs;
     Word        Len, Magic;
     LongWord    SumLen;
     PRelocEntry PReloc;
@@ -405,6 +405,14 @@ static void ProcessFile(char const* pSrcName, int Index) {
                     if (Verbose >= 2) {
                         printf("%s 0x%" PRIx64 "...", getmessage(Num_InfoMsgReading),
                                (unsigned long long)PReloc->Addr);
+                    }
+                    /* the patch location must lie within the record's code */
+
+                    PatchOffs = (LargeWord)PReloc->Addr - PartRun->CodeStart;
+                    if ((PatchOffs > PartRun->CodeLen)
+                        || ((LargeWord)((RelocBitCnt(PReloc->Type) + 7) / 8)
+                            > PartRun->CodeLen - PatchOffs)) {
+                        FormatError(SrcName, getmessage(Num_FormatInvRecordLenMsg));
                     }
                     RelocVal  = GetValue(PReloc->Type, PReloc->Addr - PartRun->CodeStart);
                     NRelocVal = (PReloc->Type & RelocFlagSUB) ? RelocVal - Value
